@@ -488,7 +488,7 @@ fn standard_pore(geometry: u8) -> PoreDesc {
 }
 
 fn build_cases(seed: u64, tier: Tier) -> Vec<Case> {
-    let (n_planar, n_pore, n_pfam, n_ofam, n_spec) = tier.pick((120, 300, 24, 60, 60), (1500, 4000, 200, 600, 600));
+    let (n_planar, n_pore, n_pfam, n_ofam, n_spec) = tier.pick((240, 600, 48, 120, 120), (1500, 4000, 200, 600, 600));
     let mut cases = Vec::new();
     let pf = planar_fluids();
     let of = pore_fluids();
@@ -714,8 +714,8 @@ fn judge_solve<F: Dft>(
                 finite && min_in > 0.0,
                 det(json!({"min": fnum(min_in), "finite": finite})),
             );
-            match profile.residual(false) {
-                Ok((_, _, res)) => {
+            match profile.residual(false).map(|(r, rb, _)| own_norm(&r, &rb)) {
+                Ok(res) => {
                     m.check(
                         "stationary: residual < tolerance of last stage",
                         &cx.sig("residual", last.name()),
@@ -894,7 +894,7 @@ fn planar<F: Dft>(m: &mut Monitor, idx: u64, c: &Case, f: &Arc<F>) {
                         m.check("spec: constrained = free surface tension", &format!("{sig}|gamma"), idx, serr(g, g0, 0.0), TOL_GAMMA_FIXED, || json!({"case": c, "free": g0, "constrained": g}));
                     }
                 }
-                if let Ok((_, _, r)) = pi.profile.residual(false) {
+                if let Ok(r) = pi.profile.residual(false).map(|(r, rb, _)| own_norm(&r, &rb)) {
                     let tol_last = chain.as_ref().map_or(1e-11, |c| c.last().tol());
                     m.check("spec: residual (incl. bulk equation) < tolerance", &format!("{sig}|residual"), idx, r / tol_last, TOL_RESIDUAL_FACTOR, || json!({"case": c, "residual": r}));
                 }
@@ -909,6 +909,13 @@ fn planar<F: Dft>(m: &mut Monitor, idx: u64, c: &Case, f: &Arc<F>) {
 /// A-posteriori bound on |N - n| / n for a returned profile with residual (res, res_bulk):
 /// N_i = rho_b,i z_i - int res_i dV and the bulk equation reads rho_b,i - n_i / z_i = res_bulk,i
 /// (Moles) resp. rho_b,i - rho_b,i n / sum_j rho_b,j z_j = res_bulk,i (TotalMoles).
+/// root mean square over the density residual and the bulk-density residual together (the
+/// definition the solver documents), computed here from the two vectors instead of trusting
+/// the norm the library reports alongside them
+fn own_norm<D: ndarray::Dimension>(res: &ndarray::Array<f64, D>, res_bulk: &Array1<f64>) -> f64 {
+    ((res.iter().map(|x| x * x).sum::<f64>() + res_bulk.iter().map(|x| x * x).sum::<f64>()) / (res.len() + res_bulk.len()) as f64).sqrt()
+}
+
 fn amount_bound<F: Dft>(profile: &DFTProfile<Ix1, F>, total: bool) -> Option<f64> {
     let (res, res_bulk, _) = profile.residual(false).ok()?;
     let pd = profile.bulk.partial_density.to_reduced();
@@ -1075,9 +1082,9 @@ fn pores<F: Dft>(m: &mut Monitor, idx: u64, c: &Case, f: &Arc<F>) {
                         || json!({"case": c, "bulk_density_free": r0, "bulk_density_constrained": r1}),
                     );
                 }
-                if let Ok((_, _, r)) = pp.profile.residual(false) {
+                if let Ok((r, r_lib, rb_max)) = pp.profile.residual(false).map(|(r, rb, n)| (own_norm(&r, &rb), n, rb.iter().fold(0.0f64, |a, x| a.max(x.abs())))) {
                     let tol_last = chain.as_ref().map_or(1e-11, |c| c.last().tol());
-                    m.check("spec: residual (incl. bulk equation) < tolerance", &format!("{sig}|residual"), idx, r / tol_last, TOL_RESIDUAL_FACTOR, || json!({"case": c, "residual": r}));
+                    m.check("spec: residual (incl. bulk equation) < tolerance", &format!("{sig}|residual"), idx, r / tol_last, TOL_RESIDUAL_FACTOR, || json!({"case": c, "residual": r, "norm reported by the library": r_lib, "largest bulk residual": rb_max}));
                 }
             } else if !*grid {
                 m.skip("spec: amount met", if err == "NotConverged" { "not converged" } else { "solver error" });
@@ -1118,7 +1125,7 @@ pub fn run(cfg: Config) -> i32 {
         "planar interfaces (8 fluids: PC-SAFT pure/full/binary, PeTS, gc-PC-SAFT; T/T_c U[0.5,0.95]; 256-1024 points, 100-250 A; tanh / pDGT / previous-solution start) and 1D pores (6 fluids; slit/cylinder/sphere; LJ93/Steele/SimpleLJ93/hard wall; T/T_c in [0.6,1.5]; bulk density 1-30 % of saturated vapour resp. critical density) solved with random chains of 1-3 Picard/Anderson/Newton stages (log/non-log, tolerances 1e-2..1e-11, iteration budgets 5..400); family comparison with all families driven to 1e-13; Moles/TotalMoles with random chains and a deterministic mini-grid of 12 standard cases; distinct by hash of the case description, non-trivial = the solve returned Ok",
         false,
         &[
-            "the residual is recomputed with DFTProfile::residual(false), i.e. with the library's own Euler-Lagrange operator: a stationary point of a wrong operator is not detected here (C17/C19 cover the operator)",
+            "the residual vectors (density and bulk equation) come from DFTProfile::residual(false), i.e. from the library's own Euler-Lagrange operator, their norm is computed by the harness: a stationary point of a wrong operator is not detected here (C17/C19 cover the operator)",
             "family comparison is restricted to T <= 0.9 T_c, boxes >= 180 A and bulk states away from capillary condensation, where the stationary point is unique up to translation",
         ],
     )
